@@ -616,6 +616,28 @@ static int Drain(const JsonRpcConnection::Ptr& c)
 	return fut.get();
 }
 
+/* Handlers may detach threads (config::Update: std::thread running HandleConfigUpdate; event::ExecuteCommand: the
+ * remote check scheduler).  A thread that did not exist before the message was handed over must be gone before the
+ * "after" snapshot is taken — no sleeps, no guesses about how long a thread takes to start. */
+static std::set<std::string> Tids()
+{
+	std::set<std::string> r;
+	std::error_code ec;
+	for (auto& e : fs::directory_iterator("/proc/self/task", ec)) r.insert(e.path().filename().string());
+	return r;
+}
+
+static void JoinNewThreads(const std::set<std::string>& before)
+{
+	for (int i = 0; i < 400000; i++) {           /* <= ~40 s */
+		bool any = false;
+		for (auto& t : Tids()) if (!before.count(t)) { any = true; break; }
+		if (!any) return;
+		usleep(100);
+	}
+	Die("a thread started by a handler did not finish");
+}
+
 static void Quiesce()
 {
 	Sync();
@@ -884,10 +906,11 @@ static void RunCase(const Case& c)
 	(raw->*get(MhTag()))(mkMsg("verif::Probe", Dictionary::Ptr(new Dictionary({ { "x", 1 } }))));
 
 	Snap o0 = SnapObjects(), f0 = SnapFiles();
+	std::set<std::string> tids = Tids();
 	(raw->*get(MhTag()))(mkMsg(String(c.method), params));
-	if (c.method == "config::Update") {
-		/* the handler detaches a thread that takes m_ConfigSyncStageLock */
-		usleep(20000);
+	Quiesce();
+	JoinNewThreads(tids);
+	{
 		std::mutex& mx = *get(StageLockTag());
 		mx.lock(); mx.unlock();
 	}
